@@ -507,14 +507,23 @@ PROPS = {
                    'validated against the real [u8] indexing; heap representation bounded (len <= 12) in the thorough tier.',
         level_note='Trusted: Verus/Z3, Kani/CBMC/CaDiCaL, vstd specs of Vec/slice/array ops, assume_specification for '
                    '<[T]>::to_vec, alloc::fmt::format and Backtrace::capture stubbed on error paths; Hex invariant '
-                   'inline-length <= 8 is a precondition; from_str(print(h)) not covered.',
+                   'inline-length <= 8 is a precondition. from_str(print(h)): proved over trusted contracts of hex::decode (a partial '
+                   'function of the text that reads two hexadecimal digits appended to a text as one more byte), str::replace(char, ""), '
+                   '<[String]>::join and format!("{:02X}") (two hexadecimal digits, no dash) - what the clause says about sodg is '
+                   'that from_str removes exactly the separator print inserts and nothing else, decodes, and builds from the bytes.',
         design_ref='DESIGN.md §4 C15',
-        trusted_base=HEX_TRUSTED,
+        trusted_base=HEX_TRUSTED + [
+            'shim/hexcrate.rs: hex::decode (decode_rel, hex_decode uninterpreted; axiom_decode_empty; axiom_02x_decode: '
+            'format!("{:02X}", b) is two non-dash characters that hex::decode reads back as b when appended to a text), '
+            'str::replace(char, "") = the text without that character, <[String]>::join = parts with the separator between them; '
+            'FromStr declared to Verus; From<FromHexError> for the opaque anyhow error'],
         explanation='Verus proves, for byte strings of every length and both representations, that '
                     'empty/bytes/len/is_empty/to_vec/byte_at/tail/from_slice/from_vec/print of the real src/hex.rs are functions '
-                    'of the abstract byte string view() alone.',
-        not_covered=['from_str(print(h)) == h: the hex crate and String::replace are outside both verifiers (print() itself is '
-                     'verified: its text is determined by the byte string; a Kani round-trip harness gave no result in 15 min)'],
+                    'of the abstract byte string view() alone; print-text-parses-back-to-the-bytes + '
+                    'from_str-decodes-the-text-without-its-dashes + lemma L15-from_str-of-print-is-the-same-bytes give '
+                    'from_str(print(h)) == h.',
+        not_covered=['from_str(print(h)) == h is decided as "same byte string" (view); that == on Hex is equality of the byte strings is '
+                     'the Kani eq harness; the characters format!/hex::decode exchange are a trusted axiom (axiom_02x_decode)'],
         parts=[parts.kani_group('kani-hex-inline-complete', C15_COMPLETE, complete=True),
                parts.kani_group('kani-hex-heap-bounded', C15_BOUNDED, complete=False, tier='thorough')],
         back_end_extra='Kani 0.68.0 -> CBMC 6.11 -> CaDiCaL for the Index/IndexMut/eq/i64/f64 harnesses',
